@@ -47,10 +47,10 @@ GI_SCOPE = {
     "C04": [(T + "main.py", "handle_packet|handle_quic_packet|run"), (T + "session.py", "matches_session|set_client_and_server_ports|find_session_secrets|__init__"),
             (Q + "quic_session.py", "matches_session_.*|set_server_client_address|packet_isserver|set_tls_decryptors|__init__"), (T + "keylog_reader.py", None)],
     "C05": [(T + "session.py", "handle_packet|get_tls_records|extract_.*_buf"), (T + "main.py", "handle_packet|run")],
-    "C06": [(T + "output_builder.py", None), (Q + "quic_output_builder.py", None), (Q + "quic_session.py", "build_output"), (T + "main.py", "run"),
-            (T + "session.py", "extract_.*_buf|decrypt")],
+    "C06": [(T + "output_builder.py", None), (Q + "quic_output_builder.py", None), (Q + "quic_session.py", "build_output"), (T + "main.py", "run|handle_packet"),
+            (T + "session.py", "extract_.*_buf|decrypt|handle_packet")],
     "C07": [(T + "session.py", "handle_tls_record|extract_.*_buf|set_client_and_server_ports|get_tls_records"), (T + "output_builder.py", None), (Q + "quic_output_builder.py", None),
-            (T + "packet.py", None), (T + "dpkt_dsb.py", "__init__|__iter__"), (Q + "quic_session.py", "handle_frame|handle_crypto_frame|build_output|set_server_client_address")],
+            (T + "packet.py", None), (T + "dpkt_dsb.py", "__init__|__iter__"), (Q + "quic_session.py", "handle_frame|handle_crypto_frame|build_output|set_server_client_address|handle_packet")],
     "C08": [(T + "session.py", "get_tls_records|extract_.*_buf|handle_tls_record|handle_packet|decrypt"), (T + "main.py", "handle_packet|handle_quic_packet|run"),
             (Q + "quic_session.py", "handle_packet|handle_quic_packet|handle_frame|handle_crypto_frame|build_output"), (Q + "quic_output_builder.py", None)],
     "C09": [(T + "keylog_reader.py", None), (T + "dpkt_dsb.py", "__init__|__iter__"), (T + "main.py", "handle_packet|handle_quic_packet|run"), (T + "packet.py", None),
@@ -133,7 +133,7 @@ prop("C02",
      ["cryptography's AEAD implementations; struct.unpack_from semantics"], controls=["c02-merge-without-ts"])
 
 prop("C03",
-     lambda tier: [tls.rule_A5, pcapng.rule_T9_pcapng, GI_for("C03"), WSI_for("C03"), LDI_for("C03"), LSI_for("C03"), STALE_for("C03"), escape.rule_A1, escape.rule_A1_records, escape.rule_A1_quic_packets, progress.rule_A2, tls.rule_A4, tls.rule_D1, state.rule_D6_ownership,
+     lambda tier: [tables.rule_T2, tables.rule_T4, tls.rule_A5, pcapng.rule_T9_pcapng, GI_for("C03"), WSI_for("C03"), LDI_for("C03"), LSI_for("C03"), STALE_for("C03"), escape.rule_A1, escape.rule_A1_records, escape.rule_A1_quic_packets, progress.rule_A2, tls.rule_A4, tls.rule_D1, state.rule_D6_ownership,
                    tcp.rule_framing, B2_for("session"), state.rule_attr_kinds, mirror.rule_B3_match, quic.rule_D7b],
      "Decides 'never makes the run fail' as an interprocedural may-raise analysis: every site of classes S1–S6 (raise, index/key lookup, non-total external call, "
      "possibly-unbound local, attribute not set by every constructor path, data-dependent division) reachable from an iteration of run()'s capture loop or "
@@ -218,7 +218,7 @@ prop("C12",
      ["dpkt.pcapng / dpkt.pcap block classes"], controls=["c12-swap-le-class"])
 
 prop("C13",
-     lambda tier: [GI_for("C13"), WSI_for("C13"), LDI_for("C13"), LSI_for("C13"), meta.rule_D5, quic.rule_D8, quic.rule_frame_attrs, output.rule_A8],
+     lambda tier: [tcp.rule_full_scans, GI_for("C13"), WSI_for("C13"), LDI_for("C13"), LSI_for("C13"), meta.rule_D5, quic.rule_D8, quic.rule_frame_attrs, output.rule_A8],
      "Decides the effect set of the metadata switch: every statement control-dependent on it (post-dominator based edge dominance) only appends to the output "
      "channel (TLS) or selects CRYPTO/VN bytes (QUIC); application-record handlers, alert/handshake handling and the STREAM selection are not control-dependent "
      "on it; metadata records are appended verbatim; the switch's provenance is args.metadata.", ["none beyond the trusted base"],
